@@ -41,6 +41,12 @@ theorem isEq_gadget {a b : ℕ × ℕ} {P Q : E} (ha : C13.AffRep a P) (hb : C13
     Code.r1csIsEq a b = true ↔ Point.Coset P Q := by
   rw [Code.r1csIsEq_eq]; exact C13.isEq_gadget ha hb
 
+/-- witness allocation (the translated `AllocationMode::Witness` arm of `AllocVar<Element>`): complete for every affine
+representative of every group element, and the variable handed back carries a point of the same coset -/
+theorem allocWitness_complete {px py : ℕ} {P : E} (hr : ERepr (Ext.ofAffine (px, py)) P) (he : Point.IsEven P) :
+    ∃ P', (Code.r1csAllocWitness px py none).1 = true ∧ C13.AffRep (Code.r1csAllocWitness px py none).2 P' ∧ Point.Coset P P' := by
+  rw [Code.r1csAllocWitness_eq]; exact C13.allocWitness_complete hr he
+
 /-- the operator forms of the gadget variables (`impl Add/Sub/…Assign for ElementVar`, with `ElementVar` and with constant
 `Element` operands, in src/ark_curve/r1cs/{ops,inner}.rs; entries of the regenerated lists labelled `r1cs/…`) carry the
 group sum / difference of the carried values — the same denotation as the native forms in the same lists (C04) -/
